@@ -196,15 +196,15 @@ class SimulatorBase(
         # The noise model sees the qubits of the whole simulated system: `circuit` may be only the
         # measurement-free prefix or the remainder of the program, in which some qubits are idle.
         noisy_moments = self.noise.noisy_moments(circuit, sorted(sim_state.qubits))
-        measured: dict[tuple[cirq.Qid, ...], bool] = collections.defaultdict(bool)
+        measured: set[cirq.Qid] = set()
         for moment in noisy_moments:
             for op in ops.flatten_to_ops(moment):
                 try:
                     # Preprocess measurements
-                    if all_measurements_are_terminal and measured[op.qubits]:
+                    if all_measurements_are_terminal and op.qubits and measured.issuperset(op.qubits):
                         continue
                     if isinstance(op.gate, ops.MeasurementGate):
-                        measured[op.qubits] = True
+                        measured.update(op.qubits)
                         if all_measurements_are_terminal:
                             continue
 
